@@ -113,7 +113,14 @@ func (x *run) nudge() {
 }
 
 // c01FullRestart: family F — all workers of the assembly are replaced (what the repo's own e2e tests do).
-func c01FullRestart(c *lib.Ctx) {
+func c01FullRestart(c *lib.Ctx) { fullRestart(c, -1) }
+
+// c16Recovery: the recovery runs of C01 with most crashes at the point where the source positions and the
+// operators' state can come apart: every member acknowledged checkpoint N, the job snapshot's write is in
+// flight, the workers die, and the write completes while the next assembly is being deployed.
+func c16Recovery(c *lib.Ctx) { fullRestart(c, 5) }
+
+func fullRestart(c *lib.Ctx, force int) {
 	o := pickOpts(c.R)
 	if o.keyGroups == 65535 {
 		o.keyGroups = 256
@@ -133,6 +140,9 @@ func c01FullRestart(c *lib.Ctx) {
 		pos = min(o.perSplit, pos+3+r.Intn(o.perSplit/2))
 		x.src.SetLimit(pos)
 		mode := r.Intn(6)
+		if force >= 0 && r.Intn(4) > 0 {
+			mode = force
+		}
 		var publishLater func() // mode 5: releases the held publication
 		switch mode {
 		case 5: // every member has acknowledged the checkpoint, its publication is still in flight when the workers die
